@@ -8,6 +8,7 @@ CONSTANTS
 INIT Init
 NEXT Next
 CHECK_DEADLOCK FALSE
+PROPERTY Prop_Frame
 INVARIANT Inv_CacheCoherent
 INVARIANT Inv_PdfNormalised
 INVARIANT Inv_CondCoherent
